@@ -6,6 +6,7 @@
 #   $H conn basic.cases basic.obs basic.aux
 #   $H conn edge.cases edge.obs edge.aux    (debug build: edge.debug.obs)
 #   $H val values.vals values.out values.aux
+#   $H tls tls.cases tls.obs tls.aux
 import struct
 def pkt(seq, payload):
     return (struct.pack('<I', len(payload))[:3] + bytes([seq]) + payload)
@@ -187,3 +188,27 @@ b 1 0 isize:-129
 t mfloat:7fc00000
 t mdouble:fff0000000000000"""
 open('values.vals','w').write(vals+'\n')
+
+# ---- tls mode examples
+CAPS_SSL = struct.pack('<I', 0x203fae85)
+def sslreq(seq=1): return pkt(seq, CAPS_SSL + bytes([0,0,0,1]) + bytes([0x21]) + bytes(23))
+def hs_tls(user=b'jon', seq=2): return pkt(seq, CAPS_SSL + bytes([0,0,0,1]) + bytes([0x21]) + bytes(23) + user + b'\0' + b'\0')
+PLAIN = hs_tls() + PING + query(b'q')
+cases = []
+def tcase(name, cfg='lim=16777215 tls=1 auth=ok', split=0, prechunks=None, chunks='*', extra=''):
+    lines = ['case ' + name, 'cfg ' + cfg, 'pre ' + sslreq().hex(), 'plain ' + PLAIN.hex(), 'split %d' % split]
+    if prechunks: lines.append('prechunks ' + prechunks)
+    lines.append('chunks ' + chunks)
+    if extra: lines.append(extra)
+    lines.append('end')
+    cases.append('\n'.join(lines))
+for k in (0, 1, 5, 100, 10000):
+    tcase('split%d' % k, split=k)
+tcase('chunks1', split=3, chunks='1')
+tcase('chunks7', split=0, chunks='7')
+tcase('prechunks', split=50, prechunks='1 2 3', chunks='5 11')
+tcase('notls', cfg='lim=16777215 tls=0 auth=ok', split=100)
+tcase('clientcert', cfg='lim=16777215 tls=1 auth=ok clientcert=1', split=10, chunks='64')
+tcase('rej', cfg='lim=16777215 tls=1 auth=rej:5 clientcert=1')
+tcase('lim64', cfg='lim=64 tls=1 auth=ok', chunks='13', extra='q start 1 - 61 253 0 wc s:r100x7a p fin')
+open('tls.cases','w').write('\n'.join(cases)+'\n')
